@@ -14,10 +14,11 @@ import Mathlib.Tactic.Ring
     `channel_offset·nb_normal + 500·nb_lfe ≤ Σ rates ≤ channel_offset·nb_normal + lfe_offset·nb_lfe` (> bitrate);
   * ambisonics: all streams get `max(total/nb_streams, 500)`; `total − nb_streams < Σ ≤ total` for every setting the
     ctl admits;
-  * no 32-bit overflow (`msFits`) provided a coupled stream never sees more than 4194303 b/s per channel — true for
-    every layout with `nb_channels ≤ 13·nb_normal`, in particular whenever nb_channels = nb_streams + nb_coupled
-    (all surround / ambisonics / projection create functions); FALSE in general for `opus_multistream_encoder_create`
-    with many more input channels than coded channels (`msFits_counterexample`);
+  * no 32-bit overflow (`msFits`) for every layout, frame size and bit-rate setting the API admits — with the products
+    `channel_rate*coupled_ratio` / `channel_rate*lfe_ratio` of :729/:733 computed in 64 bits (/repo 69d56905; the
+    32-bit product overflowed for `opus_multistream_encoder_create` layouts with many more input channels than coded
+    channels, see the example in OpusProps/C05.lean), the shifted values cast back satisfy
+    `−8178000 ≤ channel_rate*512>>8 ≤ bitrate ≤ 76500000` and `|channel_rate*32>>8| ≤ 9562500`;
   * with OPUS_AUTO the allocated sum is always worth `smallest_packet` bytes, which discharges the hypothesis of
     `ms_encode_ret_le_out` for CBR.
 -/
@@ -575,15 +576,11 @@ theorem mul_range (a b A B : Int) (ha0 : 0 ≤ a) (ha : a ≤ A) (hb0 : 0 ≤ b)
   ⟨Int.mul_nonneg ha0 hb0, Int.mul_le_mul ha hb hb0 (by omega)⟩
 
 /-- **No 32-bit overflow, surround / plain layouts.**  For every layout, frame size and bit-rate setting the API
-    admits, every `int`/`opus_int32` intermediate of `surround_rate_allocation` and the sum of `rate_allocation`
-    fit 32 bits and no division is by zero — PROVIDED that, when there is a coupled or an LFE stream, the number of input
-    channels (which bounds the bit-rate the ctl accepts, 300000 per input channel) is at most 13 per coded channel.
-    All layouts made by the surround / ambisonics / projection create functions have
-    nb_channels = nb_streams + nb_coupled and satisfy this (`msFits_standard`); a plain
-    `opus_multistream_encoder_create` layout with ≥ 28 input channels feeding one coupled stream does not, and there
-    `channel_rate*coupled_ratio` of :729 overflows (`msFits_counterexample`). -/
-theorem msFits_sur (l : MsLayout) (fs fsz nch br : Int) (h : SurIn l fs fsz nch br) (ha : l.ambisonics = false)
-    (hcap : (0 < l.nbCoupled ∨ l.lfeStream ≠ -1) → nch ≤ 13 * (l.nbStreams + l.nbCoupled - msNbLfe l)) :
+    admits (any `nb_channels ≤ 255`, so also explicit mappings with muted / shared input channels), every
+    `int`/`opus_int32` intermediate of `surround_rate_allocation` and the sum of `rate_allocation` fit 32 bits and no
+    division is by zero; in particular the values `(opus_int32)(((opus_int64)channel_rate*ratio)>>8)` cast back at
+    :729/:733: `2·channel_rate ≤ bitrate` for a coupled stream (then `nb_normal ≥ 2`), and `channel_rate ≥ −4089000`. -/
+theorem msFits_sur (l : MsLayout) (fs fsz nch br : Int) (h : SurIn l fs fsz nch br) (ha : l.ambisonics = false) :
     msFits l fs fsz br = true := by
   have F := sur_facts l fs fsz nch br h
   obtain ⟨hhi, hlo⟩ := msSur_sum l fs fsz nch br h ha
@@ -637,23 +634,16 @@ theorem msFits_sur (l : MsLayout) (fs fsz nch br : Int) (h : SurIn l fs fsz nch 
     · have : v.channelRate * 1 ≤ v.channelRate * v.nbNormal := Int.mul_le_mul_of_nonneg_left nn1 c0
       omega
     · omega
-  have hcr3 : (0 < l.nbCoupled ∨ l.lfeStream ≠ -1) → v.channelRate ≤ 4194303 := by
+  have hcr3 : 0 < l.nbCoupled → 2 * v.channelRate ≤ v.bitrate := by
     intro hc
-    have hcap := hcap hc
-    rw [← Leq] at hcap
     rcases hnumcase with ⟨-, c0, c1⟩ | h
-    · by_contra hgt
-      have : 4194304 * v.nbNormal ≤ v.channelRate * v.nbNormal := Int.mul_le_mul_of_nonneg_right (by omega) (by omega)
+    · have : v.channelRate * 2 ≤ v.channelRate * v.nbNormal := Int.mul_le_mul_of_nonneg_left (by omega) c0
       omega
     · omega
   have hS0 : 0 ≤ S ∧ S ≤ 76500000 := by
     rcases Int.lt_or_le v.bitrate (v.channelOffset * v.nbNormal + v.lfeOffset * v.nbLfe) with hX | hX
     · have := hlo hX; omega
     · have := hhi hX; omega
-  have hLne : v.nbLfe = 0 ∨ l.lfeStream ≠ -1 := by
-    rw [Leq]; unfold msNbLfe; split
-    · right; assumption
-    · left; rfl
   refine ⟨by omega, by omega, ?_, ?_, ?_, ?_, ?_, ?_, ?_, ?_, ?_, ?_, ?_, ?_, ?_, ?_, ?_, ?_, ?_, ?_⟩
   all_goals first
     | (apply fits_of <;> omega)
@@ -661,13 +651,12 @@ theorem msFits_sur (l : MsLayout) (fs fsz nch br : Int) (h : SurIn l fs fsz nch 
   · by_cases hc : l.nbCoupled ≤ 0
     · left; exact hc
     · right
-      have := hcr3 (Or.inl (by omega))
-      exact ⟨by apply fits_of <;> omega, by apply fits_of <;> omega⟩
-  · rcases hLne with h0 | h0
+      have := hcr3 (by omega)
+      exact ⟨by apply fits_of <;> omega, by apply fits_of <;> omega, by apply fits_of <;> omega⟩
+  · rcases L01 with h0 | h0
     · left; exact h0
     · right
-      have := hcr3 (Or.inr h0)
-      apply fits_of <;> omega
+      exact ⟨by apply fits_of <;> omega, by apply fits_of <;> omega⟩
 
 /-- No 32-bit overflow, ambisonics: unconditional. -/
 theorem msFits_ambi (l : MsLayout) (hl : MsLayoutOk l) (fs fsz nch br : Int) (ha : l.ambisonics = true)
@@ -683,38 +672,16 @@ theorem msFits_ambi (l : MsLayout) (hl : MsLayoutOk l) (fs fsz nch br : Int) (ha
   obtain ⟨p1a, p1b⟩ := mul_range (l.nbCoupled + l.nbStreams) (fs + 60 * fs / fsz) 255 72000 (by omega) (by omega) (by omega) (by omega)
   refine ⟨?_, ?_, ?_, ?_, ?_, by omega, ?_⟩ <;> apply fits_of <;> omega
 
-/-- Every layout whose input channels are exactly its coded channels (`nb_channels = nb_streams + nb_coupled`:
-    mapping families 0, 1, 2, 3, 255) is free of overflow for every frame size and every bit-rate setting. -/
-theorem msFits_standard (l : MsLayout) (hl : MsLayoutOk l) (fs fsz br : Int)
+/-- **No 32-bit overflow in `rate_allocation`**, all layouts (`nb_streams + nb_coupled ≤ nb_channels ≤ 255`), all legal
+    frame sizes, all bit-rate settings. -/
+theorem msFits_all (l : MsLayout) (hl : MsLayoutOk l) (fs fsz nch br : Int)
     (hfs : fs = 8000 ∨ fs = 12000 ∨ fs = 16000 ∨ fs = 24000 ∨ fs = 48000) (hleg : legalFrame fs fsz = true)
-    (hbr : MsBrOk (l.nbStreams + l.nbCoupled) br) : msFits l fs fsz br = true := by
+    (hn1 : l.nbStreams + l.nbCoupled ≤ nch) (hn2 : nch ≤ 255) (hbr : MsBrOk nch br) : msFits l fs fsz br = true := by
   obtain ⟨-, r1, r2, -, -, q1, q2⟩ := legal_rate fs fsz hfs hleg
   by_cases ha : l.ambisonics = true
-  · exact msFits_ambi l hl fs fsz _ br ha (by omega) (by omega) q1 q2 (Int.le_refl _) hl.tot hbr
+  · exact msFits_ambi l hl fs fsz nch br ha (by omega) (by omega) q1 q2 hn1 hn2 hbr
   · have ha' : l.ambisonics = false := by cases h : l.ambisonics <;> simp_all
-    refine msFits_sur l fs fsz _ br (surIn_of l hl fs fsz _ br hfs hleg (Int.le_refl _) hl.tot hbr) ha' ?_
-    intro hc
-    obtain ⟨h1, h2, h3, h4, h5, -⟩ := hl
-    unfold msNbLfe
-    split
-    · rename_i hlf
-      rcases h5 with h5 | h5
-      · exact absurd h5 hlf
-      · omega
-    · rename_i hlf
-      rcases hc with hc | hc
-      · omega
-      · exact absurd hc hlf
-
-/-- … but NOT every layout `opus_multistream_encoder_create` accepts: 30 input channels (28 of them muted, mapping 255)
-    feeding one coupled stream, `OPUS_SET_BITRATE(9000000)` (accepted: ≤ 300000·30), 20 ms at 48 kHz:
-    `channel_rate = 4488000` and `channel_rate*coupled_ratio = 2297856000 > INT_MAX` at :729. -/
-theorem msFits_counterexample :
-    msCtlBitrate 30 9000000 = some 9000000 ∧
-    MsLayoutOk { nbStreams := 1, nbCoupled := 1, lfeStream := -1, ambisonics := false } ∧
-    (msSurVals { nbStreams := 1, nbCoupled := 1, lfeStream := -1, ambisonics := false } 48000 960 9000000).channelRate = 4488000 ∧
-    msFits { nbStreams := 1, nbCoupled := 1, lfeStream := -1, ambisonics := false } 48000 960 9000000 = false := by
-  refine ⟨by decide, ⟨by decide, by decide, by decide, by decide, Or.inl rfl, fun h => by cases h⟩, by decide +kernel, by decide +kernel⟩
+    exact msFits_sur l fs fsz nch br (surIn_of l hl fs fsz nch br hfs hleg hn1 hn2 hbr) ha'
 
 /-- The clamp arithmetic of `opus_multistream_encode_native` (:882-886) and the per-stream `OPUS_SET_BITRATE`:
     `3*rate_sum`, `3*bitrate_bps`, `3*8*Fs` fit 32 bits, the divisor is positive; every stream's encoder accepts its
